@@ -473,12 +473,14 @@ def _await_descriptor_upload(tor_protocol, onion, progress, await_all_uploads):
 
         elif subtype == 'FAILED':
             if hostname_matches('{}.onion'.format(args[1])):
-                failed_uploads.add(args[3])
+                # (only uploads we saw starting count; see UPLOADED)
+                if args[3] in attempted_uploads:
+                    failed_uploads.add(args[3])
                 translate_progress(
                     "wait_descriptor",
                     "Failed upload to {}".format(args[3])
                 )
-                if failed_uploads == attempted_uploads:
+                if attempted_uploads and failed_uploads == attempted_uploads:
                     msg = "Failed to upload '{}' to: {}".format(
                         args[1],
                         ', '.join(failed_uploads),
